@@ -1,5 +1,5 @@
 #!/usr/bin/env python3
-"""usage: seed_eval.py <agent out dir> [--props C01,C02,...]
+"""usage: seed_eval.py <agent out dir> [--props C01,C02,...] [--only id,id] [--confirm-cache DIR]
 For each <out>/<Cxx_k>/ with patch.diff + demo.rs + README.md:
   1. confirm in a scratch worktree: suite green with the change, demo red with / green without
   2. apply to /repo, run ./check for the target property (and the extra ones), undo
@@ -31,7 +31,14 @@ def main():
             continue
         prop = m.group(1)
         meta = {"id": d, "property": prop, "evaluated_at": time.strftime("%Y-%m-%d %H:%M:%S")}
-        code, o = sh("%s/tools/confirm_seed.sh %s %s" % (ROOT, full, d))
+        cache = None
+        if "--confirm-cache" in sys.argv:
+            cache = os.path.join(sys.argv[sys.argv.index("--confirm-cache") + 1], d + ".txt")
+        if cache and os.path.exists(cache):
+            # confirmation already run (tools/confirm_seed.sh, in parallel, each in its own scratch worktree)
+            code, o = 0, open(cache).read()
+        else:
+            code, o = sh("%s/tools/confirm_seed.sh %s %s" % (ROOT, full, d))
         meta["confirm"] = {l.split(":", 1)[0]: l.split(":", 1)[1].strip() for l in o.strip().splitlines() if ":" in l and l.startswith(("demo_", "suite_"))}
         c = meta["confirm"]
         ok = ("ok." in c.get("demo_without_change", "") and "FAILED" in c.get("demo_with_change", "")
